@@ -22,6 +22,8 @@ type c17Set struct {
 	Bases    []string
 	Injected []string // header names the configuration injects (C07's business: excluded from the comparison)
 	Light    bool     // reduced workload (order-permutation sets)
+	Tiny     bool     // only the bases and the slow-exchange cases (short upstream timeout)
+	Timeout  string   // upstream timeout ("" = default 30s): legacy --upstream-timeout, alpha per-upstream timeout
 	ExtraYML string
 
 	Proxy  *vfProxy
@@ -140,6 +142,20 @@ func c17Sets(w *vfWorld) []*c17Set {
 			ExtraYML: "injectRequestHeaders:\n- name: X-Custom-User\n  values:\n  - claim: user\n- name: X-Custom-Email\n  values:\n  - claim: email\n"},
 	}
 	sets = append(sets, c17PermSets()...)
+	// several upstreams on ONE backend (same scheme+host+port), differing in passHostHeader — both assignments
+	for k := 0; k < 2; k++ {
+		ph := func(u *c17Up, v bool) *c17Up { u.PassHost = (v == (k == 0)); return u }
+		sets = append(sets, &c17Set{Name: fmt.Sprintf("alpha-shared-backend-%d", k), Light: true,
+			Ups: []*c17Up{ph(c17HTTP("root", "/", "u1"), true), ph(c17HTTP("a", "/a/", "u1"), false), ph(c17HTTP("ab", "/a/b/", "u1"), true), ph(c17HTTP("c", "/c/", "u1"), false),
+				ph(c17HTTP("c-exact", "/c", "u1"), true), ph(c17RW("rw", "^/rw/(.*)$", "/t/$1", "u1"), false), ph(c17RW("rwlong", "^/rw/long/(.*)$", "/long/$1", "u1"), true), ph(c17HTTP("other", "/o/", "u2"), false)},
+			Bases: []string{"/", "/a/", "/a/b/", "/c/", "/c", "/rw/", "/rw/long/", "/o/", "/a%2Fb/"}})
+	}
+	// short upstream timeout (1s): exchanges that START in time but last longer must still be relayed completely
+	sets = append(sets,
+		&c17Set{Name: "legacy-timeout-1s", Legacy: true, PassHost: true, Tiny: true, Timeout: "1s",
+			Ups: []*c17Up{c17HTTP("root", "/", "u14"), c17HTTP("a", "/a/", "u15")}, Bases: []string{"/", "/a/"}},
+		&c17Set{Name: "alpha-timeout-1s", Tiny: true, Timeout: "1s",
+			Ups: []*c17Up{c17HTTP("root", "/", "u14"), nohost(c17HTTP("a", "/a/", "u15")), c17RW("rw", "^/rw/(.*)$", "/t/$1", "u15")}, Bases: []string{"/", "/a/", "/rw/"}})
 	for _, s := range sets {
 		if s.Legacy {
 			s.Injected = []string{"X-Forwarded-User", "X-Forwarded-Email", "X-Forwarded-Groups", "X-Forwarded-Preferred-Username"}
@@ -169,6 +185,9 @@ func (s *c17Set) build(w *vfWorld) error {
 	var err error
 	if s.Legacy {
 		flags := []string{fmt.Sprintf("--pass-host-header=%v", s.PassHost)}
+		if s.Timeout != "" {
+			flags = append(flags, "--upstream-timeout="+s.Timeout)
+		}
 		for _, u := range s.Ups {
 			switch u.Kind {
 			case "http":
@@ -197,6 +216,9 @@ func (s *c17Set) build(w *vfWorld) error {
 				fmt.Fprintf(&y, "    uri: %s%s\n", w.Upstream(u.UpName).URL(), u.URIPath)
 				if !u.PassHost {
 					y.WriteString("    passHostHeader: false\n")
+				}
+				if s.Timeout != "" {
+					fmt.Fprintf(&y, "    timeout: %s\n", s.Timeout)
 				}
 			case "static":
 				fmt.Fprintf(&y, "    static: true\n    staticCode: %d\n", u.StaticCode)
